@@ -253,15 +253,15 @@ fn check_state(rep: &mut Rep, ctx: &mut Ctx, kind: Kind, ops: &[Op], real: &Netw
         let mut got: Vec<Key> = real.iter_all().take(bound).map(|e| key_of(e.src, e.dst, *e.msg)).collect();
         let n = got.len();
         got.sort();
-        let class = match kind {
-            Kind::Ordered => "iter-all-ordered-repeats",
-            Kind::NonDup => "iter-all-nondup-extra-copy",
-            Kind::Dup => "iter-all-dup-mismatch",
+        let (class, obl): (&str, &[&str]) = match kind {
+            Kind::Ordered => ("iter-all-ordered-repeats", &["NET.iter_next.ensures.yield-ordered", "NET.iter_next.ensures.rest-ordered", "NET.iter_all.ensures.agrees-with-len"]),
+            Kind::NonDup => ("iter-all-nondup-extra-copy", &["NET.iter_next.ensures.rest-nondup", "NET.iter_next.ensures.yield-nondup", "NET.iter_all.ensures.agrees-with-len"]),
+            Kind::Dup => ("iter-all-dup-mismatch", &["NET.iter_next.ensures.yield-dup", "NET.iter_next.ensures.rest-dup", "NET.iter_all.ensures.agrees-with-len"]),
         };
         rep.check(ctx, 
             &case,
             class,
-            &["NET.iter_next.ensures.yield", "NET.iter_next.ensures.rest", "NET.iter_next.ensures.inv", "NET.lemma.c07_iter_all_agrees_with_len"],
+            obl,
             got == want_all,
             format!("iter_all().take({}) yielded {} item(s): {:?}; len()={}", bound, n, got, real.len()),
             format!("{} item(s): {:?}", want_all.len(), want_all),
@@ -277,7 +277,7 @@ fn check_state(rep: &mut Rep, ctx: &mut Ctx, kind: Kind, ops: &[Op], real: &Netw
         rep.check(ctx, 
             &case,
             &format!("iter-deliverable-{}", kn),
-            &["NET.deliverable_next.ensures.yield", "NET.deliverable_next.ensures.rest"],
+            &["NET.deliverable_next.ensures.yield", "NET.deliverable_next.ensures.rest", "NET.iter_deliverable.ensures.enumerates", "NET.iter_deliverable.ensures.one-per-key"],
             got == want,
             format!("{:?}", got),
             format!("{:?}", want),
@@ -365,7 +365,7 @@ pub fn run(ctx: &mut Ctx) {
         let e = env((0, 1, 'a'));
         let n = Network::new_unordered_nonduplicating([e, e]);
         let c = n.iter_all().take(10).count();
-        rep.check(ctx, case, "iter-all-nondup-extra-copy", &["NET.iter_next.ensures.inv", "NET.lemma.c07_iter_all_agrees_with_len"], c == n.len(), format!("len()={} iter_all().count()={}", n.len(), c), "equal".to_string());
+        rep.check(ctx, case, "iter-all-nondup-extra-copy", &["NET.iter_next.ensures.rest-nondup", "NET.iter_all.ensures.agrees-with-len"], c == n.len(), format!("len()={} iter_all().count()={}", n.len(), c), "equal".to_string());
     }
     rep.flush(ctx);
 }
